@@ -47,14 +47,17 @@ LEVEL_TEXT = {
             "once, in subscription order, and touches nothing else; set(), operator= and operator>> are the same call and bindings write through setHelper. "
             "Custom equal_to specialisations and types without operator== are outside the Z-valued model. Tie: differential execution incl. observers that write "
             "and assignment from a reference into another property.", '6/C03'),
-    'C06': ("Machine-checked on the executable model: a change notification reaching an evaluator-driven binding only sets dirty flags; an assignment to an "
-            "input whose subscribers are observers and evaluator-driven nodes changes no other property, runs no user function and notifies only the input's "
-            "observers; an evaluation with nothing dirty runs nothing. Machine-checked on the abstract model of evaluator-driven bindings (PropAbsLazy.v: "
-            "marking with early return, cached evaluation, evaluateAll in creation order, setHelper marking the readers): ONE evaluateAll over bindings "
-            "registered in dependency order leaves every registered binding clean and every bound property equal to the denotation of its expression, for "
-            "every network, interpretation and delivery order; the invariant (sound dirty flags, complete and sound subscriptions) is kept by assignments and "
-            "evaluations. PARTIAL: the executable model is tied to the abstract theorem by the extracted checker check_c06_after_evalall on every evaluateAll "
-            "of every generated history and by correspondence with the library (tests), not by a refinement proof.", '6/C06'),
+    'C06': ("Machine-checked in three layers. (1) Executable model: a change notification reaching an evaluator-driven binding only sets dirty flags; an "
+            "assignment to an input whose subscribers are observers and evaluator-driven nodes changes no other property, runs no user function and notifies only "
+            "the input's observers; an evaluation with nothing dirty runs nothing. (2) Abstract model of evaluator-driven bindings (PropAbsLazy.v): ONE "
+            "evaluateAll over bindings registered in dependency order leaves every registered binding clean and every bound property equal to the denotation "
+            "of its expression, for every network, interpretation and delivery order. (3) Refinement and growth (PropSimLazy.v, PropGrowLazy.v): in worlds all "
+            "of whose bindings belong to one explicit evaluator and whose observers do not act, setHelper of the executable model is the abstract marking "
+            "assignment and evaluateAll the abstract pass; these state conditions hold in every world reached by creating properties, plain observers, fresh "
+            "evaluator-driven bindings, assignments and evaluateAll; hence after one evaluateAll over bindings registered in dependency order every "
+            "registered bound property equals its expression recomputed from scratch. PARTIAL: mixed worlds (immediate and evaluator-driven bindings "
+            "together, several evaluators, acting observers, rebinding/reset/moves/destruction) are covered by the extracted checker "
+            "check_c06_after_evalall on every evaluateAll of every generated history and by correspondence.", '6/C06'),
     'C07': ("Machine-checked on the executable model: every direct write to a bound property raises ReadOnlyProperty and leaves the world unchanged; reset keeps "
             "value and observers, removes the updater and re-enables the normal write protocol; destroying/replacing a binding touches no property and no "
             "observer; after reset the former binding is dead and owns no subscription in any signal of any property, only live bindings are subscribed anywhere, "
